@@ -31,8 +31,8 @@ SPECIALS = [0.0, -0.0, -1.0, -5.0, -1e-300, 5e-324, 1e-323, 2.2250738585072014e-
 def shards(pid, tier, seed):
     if tier == "quick":
         return [{"mode": "codes"}, {"mode": "random", "n": 6000}, {"mode": "sim", "n": 1500}]
-    return ([{"mode": "codes"}] + [{"mode": "random", "n": 120000} for _ in range(8)]
-            + [{"mode": "sim", "n": 40000} for _ in range(4)])
+    return ([{"mode": "codes"}] + [{"mode": "random", "n": 900000} for _ in range(10)]
+            + [{"mode": "sim", "n": 400000} for _ in range(5)])
 
 
 _SENSORS = {}
